@@ -94,12 +94,14 @@ func (f *connFeeder) close() {
 
 func (f *connFeeder) do(b []byte) (n int, err error) {
 	// send the request to the worker
+	verifYield(1)
 	select {
 	case f.input <- b:
 	case <-f.done:
 		return 0, io.EOF
 	}
 	// get the result from the worker
+	verifYield(2)
 	select {
 	case r := <-f.result:
 		return r.n, r.err
@@ -112,6 +114,7 @@ func (f *connFeeder) run() {
 	var b []byte
 	for {
 		// wait for an input request
+		verifYield(3)
 		select {
 		case b = <-f.input:
 		case <-f.done:
@@ -120,6 +123,7 @@ func (f *connFeeder) run() {
 		// invoke the underlying method
 		n, err := f.source(b)
 		// send the result back to the requester
+		verifYield(4)
 		select {
 		case f.result <- feedResult{n: n, err: err}:
 		case <-f.done:
